@@ -79,7 +79,7 @@ def run(ctx):
     ctx.floor('Hasher::update sites (parent body)', len(updates), 4, rule='C13-D1')
     ctx.ob('C13-D1', F, 'Hasher::finalize', 'exactly one', len(finals) == 1, detail=str(len(finals)), nontrivial=False)
     sinks = set(reads) | set(updates) | set(finals)
-    DL = r'^stream_len\(data\)'
+    DL = r'^stream_len\('
 
     # D1a: empty data rejected before anything is read
     c1 = _cmp_switch(fn, T, lambda op, a, b: op == 'Lt' and re.search(DL, a) and b == '1')
@@ -94,11 +94,17 @@ def run(ctx):
                 ctx.ob('C13-D2', F, 'data_len - 1', 'dominated by data_len >= 1', dom(ft, bj), site='block %d' % bj)
 
     # consuming loops over the caller's ranges
-    nexts = [bi for bi, t in calls if t['fd'].endswith('Iterator::next') and re.search(r'^Iterator::next\(hash_range\.Some\.0\)', T.call_term(fn, bi))]
+    def elem_ty(bi):
+        d = fn.B[bi]['t']['dest']
+        return fn.local_ty(d['l']) if not d['p'] else ''
+    # loops over the caller's ranges are recognised by element type (Option<HashRange> / Option<&HashRange>), not by variable names
+    nexts = [bi for bi, t in calls if t['fd'].endswith('Iterator::next') and 'HashRange' in (elem_ty(bi) or '')]
+    range_loops = [bi for bi, t in calls if t['fd'].endswith('Iterator::next') and re.search(r'RangeInclusive<u64>', elem_ty(bi) or '') and any(
+        tt['fd'].endswith('Seek::seek') and ('RangeInclusive::start(%s.Some.0)' % T.call_term(fn, bi)) in T.call_term(fn, b2) for b2, tt in calls)]
     consumers = []
     for nb in nexts:
         r = fn.reachable(fn.B[nb]['t']['t'])
-        hit = [bi for bi, t in calls if bi in r and nb in fn.reachable(bi) and re.search(r'RangeSet::remove_range$|Vec::<T, A>::push$|Vec::push$', t['fd']) and 'Iterator::next(hash_range.Some.0).Some.0' in T.call_term(fn, bi)]
+        hit = [bi for bi, t in calls if bi in r and nb in fn.reachable(bi) and re.search(r'RangeSet::remove_range$|Vec::<T, A>::push$|Vec::push$', t['fd']) and (T.call_term(fn, nb) + '.Some.0') in T.call_term(fn, bi)]
         if hit:
             consumers.append((nb, hit))
     ctx.floor('loops consuming the supplied ranges (exclusion, inclusion)', len(consumers), 2, rule='C13-D1')
@@ -118,7 +124,7 @@ def run(ctx):
         for nb, hit in consumers:
             ok = False
             for bi, tt, ft, a, b, rv in c2:
-                if 'Iterator::next(hash_range.Some.0).Some.0' in (a + b) and all(dom(ft, h) for h in hit) and not (fn.reachable(tt, avoid=(bi,)) & set(hit)):
+                if (T.call_term(fn, nb) + '.Some.0') in (a + b) and all(dom(ft, h) for h in hit) and not (fn.reachable(tt, avoid=(bi,)) & set(hit)):
                     ok = True
             per_loop.append(ok)
     ctx.ob('C13-D1', F, 'use of a supplied range (remove_range / push)', 'dominated by the false edge of data_len < range end, whose true edge returns Err',
@@ -128,7 +134,8 @@ def run(ctx):
         org = fn.origins(other)
         terms = sorted(set(T.origin_term(fn, o)[0] for o in org))
         single = [x for x in terms if 'Index::index(' in x or re.search(r'\b(last|first|get)\(', x)]
-        whole = [x for x in terms if re.search(r'Iterator::(next|fold|try_fold|max|max_by_key|map|sum)\b', x) and 'hash_range' in x]
+        srcs = set(re.sub(r'^Iterator::next\((.*)\)$', r'\1', T.call_term(fn, nb)) for nb in nexts)
+        whole = [x for x in terms if re.search(r'Iterator::(next|fold|try_fold|max|max_by_key|map|sum)\b', x) and any(sx and sx in x for sx in srcs)]
         ctx.ob('C13-D5', F, 'bound compared with data_len', 'derived from every supplied range (iterator traversal), not from one indexed element',
                bool(whole) and not single, detail='origins: %s' % '; '.join(t[:110] for t in terms)[:600], site=loc(fn.B[bi]['t'].get('span')))
 
@@ -190,16 +197,16 @@ def run(ctx):
         oblig.must_pass_through(ctx, 'C13-D3', cf, lambda bi, b, _r=set(rets): bi in _r, lambda bi, b, _s=set(snd): bi in _s, 'worker return', 'tx.send(hasher)')
         for b in snd:
             term = T.call_term(cf, b)
-            ctx.ob('C13-D3', cname, 'value sent back', 'the updated hasher', 'hasher_enum' in term, detail=term[:100])
+            ctx.ob('C13-D3', cname, 'value sent back', 'the updated hasher', 'Hasher' in ((cf.B[b]['t'].get('at') or ['', ''])[1]), detail=term[:100])
     # origins of the hasher reaching finalize / update
     for fb in finals + updates:
         t = fn.B[fb]['t']
         org = fn.origins(t['args'][0])
         terms = sorted(set(T.origin_term(fn, o)[0] for o in org))
-        bad = [x for x in terms if not (re.search(r'^(SHA256|SHA384|SHA512)\(', x) or re.search(r'^Receiver::recv\(', x) or x in ('hasher_enum',) or re.search(r'^Digest::new\(\)$', x))]
+        bad = [x for x in terms if not (re.search(r'^(SHA256|SHA384|SHA512)\(', x) or re.search(r'^Receiver::recv\(', x) or re.fullmatch(r'[a-z_][a-z0-9_]*', x) or re.search(r'^Digest::new\(\)$', x))]
         ctx.ob('C13-D3', F, 'hasher used at %s' % fn.B[fb]['t']['fd'].split('::')[-1], 'originates only from the initial constructor or rx.recv()', not bad, detail=str(terms)[:300], site=loc(t.get('span')))
     news = [bi for bi, t in calls if re.search(r'Digest::new$', t['fd'])]
-    first_iter = min([bi for bi, t in calls if t['fd'].endswith('Iterator::next') and T.call_term(fn, bi) == 'Iterator::next(ranges)'] or [10 ** 9])
+    first_iter = min([bi for bi, t in calls if t['fd'].endswith('Iterator::next') and bi in range_loops] or [10 ** 9])
     ctx.ob('C13-D3', F, 'hasher construction', 'only before the hashing loops (never re-created mid-stream)', all(not (n in fn.reachable(first_iter)) for n in news) and len(news) == 3, detail=str(news))
     recvs = [bi for bi, t in calls if re.search(r'Receiver::<T>::recv$', t['fd'])]
     for rb in recvs:
@@ -226,8 +233,9 @@ def run(ctx):
         term = upd_ok(fn, ub)
         if term.startswith('to_be_bytes('):
             # BMFF offset marker: under the contains(start) && end == start test, fed as big-endian
-            g = [bi for bi, t in calls if re.search(r'contains$', t['fd']) and 'RangeInclusive::start(Iterator::next(ranges)' in T.call_term(fn, bi)]
-            ctx.ob('C13-D4', F, 'BMFF offset marker', 'to_be_bytes(range start) under bmff_v2_starts.contains(start)', 'RangeInclusive::start(Iterator::next(ranges).Some.0)' in term and any(dom(gb, ub) for gb in g), detail=term[:100], site=loc(fn.B[ub]['t'].get('span')))
+            heads_t = [T.call_term(fn, h) for h in range_loops]
+            g = [bi for bi, t in calls if re.search(r'contains$', t['fd']) and any('RangeInclusive::start(%s' % h in T.call_term(fn, bi) for h in heads_t)]
+            ctx.ob('C13-D4', F, 'BMFF offset marker', 'to_be_bytes(range start) under bmff_v2_starts.contains(start)', any('RangeInclusive::start(%s.Some.0)' % h in term for h in heads_t) and any(dom(gb, ub) for gb in g), detail=term[:100], site=loc(fn.B[ub]['t'].get('span')))
             continue
         ok = term in rd_bufs
         ctx.ob('C13-D4', F, 'Hasher::update(%s)' % term[:50], 'argument is a buffer filled by read_exact on the input stream', ok, site=loc(fn.B[ub]['t'].get('span')))
@@ -235,8 +243,8 @@ def run(ctx):
             rds = set(bi for bi, t in calls if t['fd'].endswith('Read::read_exact') and T.op_term(fn, t['args'][1]) == term)
             oblig.must_pass_through(ctx, 'C13-D4', fn, lambda bi, b, _u=ub: bi == _u, lambda bi, b, _r=rds: bi in _r, 'Hasher::update(%s)' % term[:40], 'read_exact into the same buffer')
     # D6: each range is read from its own start: no path from the loop head to a read of that iteration skips the seek
-    heads = [bi for bi, t in calls if t['fd'].endswith('Iterator::next') and T.call_term(fn, bi) == 'Iterator::next(ranges)']
-    seeks = set(bi for bi, t in calls if t['fd'].endswith('Seek::seek') and re.search(r'Start\(RangeInclusive::start\(Iterator::next\(ranges\)\.Some\.0\)\)', T.call_term(fn, bi)))
+    heads = list(range_loops)
+    seeks = set(bi for bi, t in calls if t['fd'].endswith('Seek::seek') and any(('Start(RangeInclusive::start(%s.Some.0))' % T.call_term(fn, h)) in T.call_term(fn, bi) for h in heads))
     rdx = [bi for bi, t in calls if t['fd'].endswith('Read::read_exact')]
     ctx.floor('range loops in the hashing function', len(heads), 2, rule='C13-D6')
     for nb in heads:
@@ -253,5 +261,5 @@ def run(ctx):
     allocs = [bi for bi, t in calls if re.search(r'from_elem$', t['fd'])]
     for ab in allocs:
         term = T.call_term(fn, ab)
-        ctx.ob('C13-D4', F, 'chunk buffer', 'sized min(chunk_left, max_hash_buf)', re.search(r'^from_elem\(0,min\(chunk_left,NonZero::get\(max_hash_buf\)\)\)', term) is not None, detail=term[:100], site=loc(fn.B[ab]['t'].get('span')))
+        ctx.ob('C13-D4', F, 'chunk buffer', 'sized min(bytes left in the range, max_hash_buf)', re.search(r'^from_elem\(0,min\([^,]+,NonZero::get\(', term) is not None, detail=term[:100], site=loc(fn.B[ab]['t'].get('span')))
     ctx.floor('chunk buffer allocations', len(allocs), 3, rule='C13-D4')
